@@ -1007,6 +1007,10 @@ func (conf *Conf) Validate(l logger.Writer) error {
 				})
 			}
 		}
+
+		// servers have been moved into webrtcICEServers2,
+		// do not add them again when the configuration is validated again.
+		conf.WebRTCICEServers = nil
 	}
 
 	if conf.WebRTCAllowOrigin != nil {
